@@ -449,6 +449,9 @@ def plan_C15(ck):
     if q and ck.violations:
         return
     hub_stage(ck, "C15", bgraph=True, routers=False)
+    # an inner basin with 70..200 neighbour basins followed by further inner basins along the same border
+    ck.traces(cf.long_lake_cases(ck.seed + 415, 6 if q else 120, "C15lake"), ["C15"], tag="c15lake", nontrivial=lambda c: True,
+              timeout_ms=60000, sample_events=("BasinGraph",))
     lowest_probe_stage(ck, "C15")
 
 
